@@ -90,14 +90,17 @@ def gen_model(rng, rich):
     return m
 
 
-def gen_tasks(rng, n, fail_at=None, delays=False, dup=False, kill_at=None):
+FAIL_KINDS = ["TaskFailure", "StopIteration", "KeyError", "ValueError", "HardStop"]
+
+
+def gen_tasks(rng, n, fail_at=None, delays=False, dup=False, kill_at=None, fail_kind=None):
     ts = []
     for i in range(n):
         t = {"id": i, "x": rng.randint(0, 50)}
         if delays:
             t["delay_ms"] = max(0, (n - i) * rng.choice([0, 5, 15, 30]))
         if i == fail_at:
-            t["fail"] = True
+            t["fail"] = fail_kind or rng.choice(FAIL_KINDS)
         if i == kill_at:
             t["kill"] = True
         ts.append(t)
@@ -110,7 +113,11 @@ def gen_tasks(rng, n, fail_at=None, delays=False, dup=False, kill_at=None):
 def gen_seq_case(rng):
     n = rng.weighted([(0, 1), (1, 2), (2, 2), (3, 3), (5, 3), (9, 1)])
     fail_at = rng.below(n) if n and rng.chance(1, 2) else None
-    return {"kind": "seq", "n_jobs": 1, "model": gen_model(rng, rng.chance(1, 3)), "maps": [gen_tasks(rng, n, fail_at, dup=rng.chance(1, 3))]}
+    maps = [gen_tasks(rng, n, fail_at, dup=rng.chance(1, 3))]
+    if rng.chance(1, 2):                     # a failure of every class somewhere in a second map
+        m = rng.randint(1, 6)
+        maps.append(gen_tasks(rng, m, fail_at=rng.below(m), fail_kind=FAIL_KINDS[rng.below(len(FAIL_KINDS))]))
+    return {"kind": "seq", "n_jobs": 1, "model": gen_model(rng, rng.chance(1, 3)), "maps": maps}
 
 
 def gen_pool_case(rng, n_jobs, kill=False):
@@ -122,10 +129,18 @@ def gen_pool_case(rng, n_jobs, kill=False):
     maps.append(gen_tasks(rng, nfail, fail_at=rng.below(nfail), delays=rng.chance(1, 2)))  # a failing task somewhere
     maps.append(gen_tasks(rng, 3, fail_at=0))
     maps.append(gen_tasks(rng, rng.randint(2, 5)))                                             # the pool still works afterwards
+    for fk in rng.sample(FAIL_KINDS[1:], 2):                                                  # other exception classes
+        m = rng.randint(2, n_jobs + 2)
+        maps.append(gen_tasks(rng, m, fail_at=rng.below(m), fail_kind=fk))
     if kill:
         nk = n_jobs + 2
         maps.append(gen_tasks(rng, nk, kill_at=rng.below(nk), delays=True))
-    return {"kind": "pool", "n_jobs": n_jobs, "model": gen_model(rng, True), "maps": maps}
+    # the last map fails while slow tasks are still running, and the error unwinds through the with-block
+    ne = n_jobs + 3
+    exit_map = [{"id": i, "x": i, "delay_ms": 300} for i in range(ne)]
+    bad = rng.below(2)
+    exit_map[bad] = {"id": bad, "x": bad, "fail": rng.choice(FAIL_KINDS[:4])}
+    return {"kind": "pool", "n_jobs": n_jobs, "model": gen_model(rng, True), "maps": maps, "exit_map": exit_map}
 
 
 def gen_shm_case(rng):
@@ -154,10 +169,16 @@ def gen_ratings(rng):
 def gen_batch_case(rng, n_jobs=1):
     rows, users, items = gen_ratings(rng)
     op = rng.choice(["recommend", "score", "predict"])
+    ops = None
+    if rng.chance(1, 2):                      # several invocations on one runner, in every order
+        ops = rng.shuffle(["recommend", "score", "predict"])[: rng.randint(2, 3)]
+        op = ops[0]
     scorer = rng.choice(["pop", "bias", "iknn"])
     nk = rng.weighted([(0, 1), (1, 2), (2, 3), (3, 3), (4, 2), (6, 1)])
     keyusers = [rng.choice(users + [99]) for _ in range(nk)]                 # duplicates and an unknown user
-    if op == "recommend":
+    if ops:
+        form = rng.choice(["dict", "coll", "coll", "coll", "ids"])           # with and without items in the test data
+    elif op == "recommend":
         form = rng.choice(["ids", "ids", "coll"])
     else:
         form = rng.choice(["dict", "coll", "coll"])
@@ -175,10 +196,11 @@ def gen_batch_case(rng, n_jobs=1):
             key_fields, keys = ["seq"], [[j + 1] for j in range(len(keyusers))]
     its = [rng.sample(items + [77], rng.randint(0, 4)) for _ in keys]
     case = {"kind": "batch", "mode": "batch", "n_jobs": n_jobs, "ratings": rows, "scorer": scorer, "op": op, "form": form, "key_fields": key_fields,
-            "keys": keys, "items": None if form == "ids" else its, "n": rng.choice([None, 2, 3]) if op == "recommend" else None,
-            "pipe_n": rng.choice([None, 4]), "fail_user": None}
+            "keys": keys, "items": None if form == "ids" else its, "n": rng.choice([None, 2, 3]) if (ops or op == "recommend") else None,
+            "pipe_n": rng.choice([None, 4]), "fail_user": None, "fail_exc": None, "ops": ops}
     if keys and "user_id" in key_fields and rng.chance(1, 4):
         case["fail_user"] = keys[rng.below(len(keys))][key_fields.index("user_id")]
+        case["fail_exc"] = rng.choice(["QueryFailure", "StopIteration", "KeyError"])
     return case
 
 
@@ -253,7 +275,7 @@ def run_seq(case):
             try:
                 for r in inv.map(iter(tasks)):
                     got.append(r)
-            except Exception as e:
+            except BaseException as e:
                 err = type(e).__name__
             out["maps"].append({"results": got, "error": err})
     out["released"] = not hasattr(inv, "model")
@@ -262,7 +284,7 @@ def run_seq(case):
 
 
 def run_pool(case):
-    out = _driver({"mode": "invoker", "n_jobs": case["n_jobs"], "model": case["model"], "maps": case["maps"]})
+    out = _driver({"mode": "invoker", "n_jobs": case["n_jobs"], "model": case["model"], "maps": case["maps"], "exit_map": case.get("exit_map")})
     out["expected"] = json.loads(json.dumps(_expected(case)))
     return out
 
@@ -369,7 +391,7 @@ def term_maps(case, obs):
             return codes.setdefault(json.dumps(v, sort_keys=True), len(codes) + 1)
         tbl = ["(Err 0)" if e is None else f"(Ok {cnat(code(e))})" for e in exp]
         got = [codes.get(json.dumps(_strip(r), sort_keys=True), 999) for r in m["results"]]
-        err = 0 if m["error"] is None else ERRCODE.get(m["error"], 7) + 1
+        err = 0 if m["error"] is None else 1
         # results carry the worker pid; for a failing map the failed task and those after it have none
         sched = _schedule(m["results"] if m["error"] is None else m["results"] + [{"pid": None}] * (len(tasks) - len(m["results"])), len(tasks))
         terms.append(f"agree_map {cnat(case['n_jobs'])} [{'; '.join(tbl)}] {clist(list(range(len(tasks))), cnat)} "
@@ -400,36 +422,50 @@ def term_shm(case, obs):
     return f"agree_shm {_tree(_shm_payload(case))} {clist(pads, cnat)} {shapes} {cbool(obs['roundtrip_ok'])}"
 
 
+NODE = {"recommend": "recommender", "score": "scorer", "predict": "rating-predictor"}
+ONAME = {"recommend": "recommendations", "score": "scores", "predict": "predictions"}
+
+
+def _ops(case):
+    return case.get("ops") or [case["op"]]
+
+
 def term_batch(case, obs):
     codes = {}
 
     def code(v):
         return codes.setdefault(json.dumps(v, sort_keys=True), len(codes) + 1)
     kf = case["key_fields"]
-    node = {"recommend": "recommender", "score": "scorer", "predict": "rating-predictor"}[case["op"]]
-    oname = {"recommend": "recommendations", "score": "scores", "predict": "predictions"}[case["op"]]
-    # the pipeline as a table: request number (passed as the `items` / `query` inputs' codes) -> output code
+    ops = _ops(case)
+    # the pipeline as a table: (node, query, items) -> output code; items are identified by the request number
     reqs, table = [], []
     for j, k in enumerate(case["keys"]):
         items_code = 1000 + j
         key = clist(list(zip(kf, k)), lambda fv: f"({cstr(fv[0])}, {cnat(fv[1])})")
         reqs.append(f"({key}, {cnat(items_code)})")
-        s = obs["single"][j]
-        out = "(Err 3)" if (s is not None and "error" in s) else f"(Ok [({cstr(node)}, {cnat(code(s))})])"
         q = k[kf.index("user_id")] if "user_id" in kf else None
-        table.append(f"(({copt(q, cnat)}, {copt(items_code if case['op'] != 'recommend' else None, cnat)}), {out})")
-    run_all = (f"(fun (nodes : list string) (inp : list (string * nat)) => "
-               f"match find (fun e => onat_eqb (fst (fst e)) (alookup \"query\" inp) && onat_eqb (snd (fst e)) (alookup \"items\" inp)) "
-               f"[{'; '.join(table)}] with Some e => snd e | None => Err 9 end)")
-    extra = f"[({cstr('n')}, {cnat(4000 + (case['n'] or 0))})]" if case["op"] == "recommend" else "[]"
-    inv = f"(mkInv {cbool(case['op'] != 'recommend')} {extra} [({cstr(node)}, {cstr(oname)})])"
+        for op in ops:
+            sres = obs["single"][ONAME[op]][j]
+            out = "(Err 3)" if (sres is not None and "error" in sres) else f"(Ok [({cstr(NODE[op])}, {cnat(code(sres))})])"
+            table.append(f"(({cstr(NODE[op])}, {copt(q, cnat)}, {copt(items_code if op != 'recommend' else None, cnat)}), {out})")
+    run_all = (f"(fun (nodes : list string) (inp : list (string * nat)) => match nodes with [nd] => "
+               f"match find (fun e => String.eqb (fst (fst (fst e))) nd && onat_eqb (snd (fst (fst e))) (alookup \"query\" inp) "
+               f"&& onat_eqb (snd (fst e)) (alookup \"items\" inp)) "
+               f"[{'; '.join(table)}] with Some e => snd e | None => Err 9 end | _ => Err 8 end)")
+    invs = []
+    for op in ops:
+        extra = f"[({cstr('n')}, {cnat(4000 + (case['n'] or 0))})]" if op == "recommend" else "[]"
+        invs.append(f"(mkInv {cbool(op != 'recommend')} {extra} [({cstr(NODE[op])}, {cstr(ONAME[op])})])")
     if obs["error"]:
         want = "None"
     else:
-        rows = clist(list(zip(obs["keys"], obs["lists"])), lambda kl: f"({clist(list(zip(obs['key_fields'], kl[0])), lambda fv: f'({cstr(fv[0])}, {cnat(fv[1])})')}, {cnat(codes.get(json.dumps(kl[1], sort_keys=True), 999))})")
-        want = f"(Some [({cstr(oname)}, {rows})])"
+        outs = []
+        for name, col in obs["outputs"]:
+            rows = clist(list(zip(col["keys"], col["lists"])), lambda kl: f"({clist(list(zip(col['key_fields'], kl[0])), lambda fv: f'({cstr(fv[0])}, {cnat(fv[1])})')}, {cnat(codes.get(json.dumps(kl[1], sort_keys=True), 999))})")
+            outs.append(f"({cstr(name)}, {rows})")
+        want = f"(Some [{'; '.join(outs)}])"
     sched = "[" + "; ".join(["Claim 0; Finish 0"] * len(case["keys"])) + "]" if case["keys"] else "[]"
-    return (f"agree_batch {cnat(case['n_jobs'])} {run_all} [{inv}] [{'; '.join(reqs)}] {sched} {want}")
+    return (f"agree_batch {cnat(case['n_jobs'])} {run_all} [{'; '.join(invs)}] [{'; '.join(reqs)}] {sched} {want}")
 
 
 def coq_term(case, obs):
@@ -466,8 +502,17 @@ def oracle_maps(case, obs):
                 v.append((f"{case['kind']}:failure-position", f"map {mi}: {len(got)} results were handed over before the error of task {bad}"))
     if case["kind"] == "pool":
         a = obs["after"]
+        ex = obs.get("exit")
+        if ex is not None:
+            bad = next(i for i, t in enumerate(case["exit_map"]) if t.get("fail"))
+            if ex["error"] is None:
+                v.append(("pool:failure-swallowed", f"the failing task {bad} of the last map did not surface as an error"))
+            elif len(ex["results"]) > bad:
+                v.append(("pool:failure-misattributed", "results were handed over past the failing task of the last map"))
         if a["children"] or a["shm_left"]:
-            v.append(("pool:not-released", f"after the with-block {a['children']} child processes and shared-memory segments {a['shm_left']} remain"))
+            how = "after a task failure unwound through the with-block (other tasks still running)" if ex is not None else "after the with-block"
+            v.append(("pool:not-released", f"{how}: {a['children']} child processes are alive and shared-memory segments {a['shm_left']} remain "
+                      "when control returns to the caller"))
         if obs["invoker"] != "ProcessPoolOpInvoker":
             v.append(("pool:wrong-invoker", f"n_jobs={case['n_jobs']} gave {obs['invoker']}"))
     elif not obs.get("released", True):
@@ -489,25 +534,35 @@ def oracle_shm(case, obs):
 def oracle_batch(case, obs):
     v = []
     tag = "batch" if case["n_jobs"] == 1 else "batch-pool"
-    failing = [s for s in obs["single"] if s is not None and "error" in s]
-    if failing:
-        if obs["error"] is None:
-            v.append((f"{tag}:failure-swallowed", "the single-query operation fails for some key but the batch run returned normally"))
-        return v
-    if obs["error"]:
-        v.append((f"{tag}:spurious-error", f"batch {case['op']} raised {obs['error']}: {obs.get('msg')}"))
-        return v
-    if obs["key_fields"] != case["key_fields"]:
-        v.append((f"{tag}:key-fields", f"key fields {case['key_fields']} came back as {obs['key_fields']}"))
-    if obs["keys"] != case["keys"]:
-        v.append((f"{tag}:keys", f"keys {case['keys']} came back as {obs['keys']} (one per input key, input order, duplicates kept)"))
-    elif obs["lists"] != obs["single"]:
-        j = next(i for i, (a, b) in enumerate(zip(obs["lists"], obs["single"])) if a != b)
-        v.append((f"{tag}:value", f"result for key {case['keys'][j]} differs from the single-query {case['op']}: {obs['lists'][j]} vs {obs['single'][j]}"))
+    ops = _ops(case)
+    failing = [s for op in ops for s in obs["single"][ONAME[op]] if s is not None and "error" in s]
     if case["n_jobs"] > 1:
         a = obs["after"]
         if a["children"] or a["shm_left"]:
             v.append(("batch-pool:not-released", f"after the batch run {a['children']} child processes and segments {a['shm_left']} remain"))
+    if failing:
+        if obs["error"] is None:
+            got = {name: len(col["keys"]) for name, col in obs["outputs"]}
+            v.append((f"{tag}:failure-swallowed", f"the single-query operation fails ({failing[0]['error']}) for some key but the batch run returned normally "
+                      f"with {got} results for {len(case['keys'])} keys"))
+        return v
+    if obs["error"]:
+        v.append((f"{tag}:spurious-error", f"batch {'+'.join(ops)} raised {obs['error']}: {obs.get('msg')}"))
+        return v
+    names = [name for name, _ in obs["outputs"]]
+    if names != [ONAME[op] for op in ops]:
+        v.append((f"{tag}:outputs", f"outputs {names} for invocations {ops}"))
+        return v
+    for op, (name, col) in zip(ops, obs["outputs"]):
+        single = obs["single"][name]
+        if col["key_fields"] != case["key_fields"]:
+            v.append((f"{tag}:key-fields", f"{name}: key fields {case['key_fields']} came back as {col['key_fields']}"))
+        if col["keys"] != case["keys"]:
+            v.append((f"{tag}:keys", f"{name}: keys {case['keys']} came back as {col['keys']} (one per input key, input order, duplicates kept)"))
+        elif col["lists"] != single:
+            j = next(i for i, (x, y) in enumerate(zip(col["lists"], single)) if x != y)
+            v.append((f"{tag}:value:{op}" + ("" if len(ops) == 1 else ":multi-invocation"),
+                      f"invocations {ops}: {name} for key {case['keys'][j]} differs from the single-query {op}: {col['lists'][j]} vs {single[j]}"))
     return v
 
 
@@ -536,6 +591,9 @@ def counters(case, obs):
             rel = "none" if not tasks else "below" if len(tasks) < case["n_jobs"] else "at" if len(tasks) == case["n_jobs"] else "above"
             yield f"{k}:tasks-vs-workers={rel}"
             yield f"{k}:map-result={m['error'] or 'ok'}"
+            for t in tasks:
+                if t.get("fail"):
+                    yield f"{k}:failure-class={t['fail']}"
             if len({json.dumps({a: b for a, b in t.items() if a != 'delay_ms'}, sort_keys=True) for t in tasks}) < len(tasks):
                 yield f"{k}:duplicate-tasks"
             if m["error"] is None and len({r["pid"] for r in m["results"]}) > 1:
@@ -554,19 +612,41 @@ def counters(case, obs):
             yield "shm:block-longer-than-payload"
     else:
         yield f"batch:n_jobs={case['n_jobs']}"
-        yield "batch:op=" + case["op"]
+        yield "batch:ops=" + "+".join(_ops(case))
         yield "batch:form=" + case["form"] + "/" + "+".join(case["key_fields"])
         yield "batch:keys=" + str(min(len(case["keys"]), 5))
         yield "batch:result=" + (obs["error"] or "ok")
         if len({tuple(x) for x in case["keys"]}) < len(case["keys"]):
             yield "batch:duplicate-keys"
         if case["fail_user"] is not None:
-            yield "batch:failing-component"
+            yield "batch:failing-component=" + str(case.get("fail_exc"))
 
 
 def sample(case, obs):
     s = json.dumps({"case": case, "observation": obs}, default=str)
     return json.loads(s) if len(s) < 5000 else {"case_kind": case["kind"], "n_jobs": case.get("n_jobs"), "note": "sample too large", "size": len(s)}
+
+
+SEARCH_CASES = 0          # the generic fallback would run the thorough tier's pools; `search` below is used instead
+
+
+def search(rng, rep):
+    """Called when an obligation is broken and no generated case failed: thorough-tier cases of the cheap kinds."""
+    _setup()
+    hit = False
+    cases = [gen_seq_case(rng.fork(("s", j))) for j in range(200)] + [gen_batch_case(rng.fork(("b", j))) for j in range(200)] \
+        + [gen_shm_case(rng.fork(("m", j))) for j in range(300)]
+    for case in cases:
+        try:
+            obs = run_impl(case)
+        except Exception:
+            continue
+        for key, what in oracle(case, obs):
+            rep.violation(key, what, {"case": case, "observation": obs})
+            hit = True
+        if hit:
+            break
+    return hit
 
 
 def shrink(case, fails):
